@@ -155,6 +155,72 @@ def make_ob(tname, opc, op, cat, k, big, tier, hyph=None):
               oracle="R-src dis._get_instructions_bytes of CPython %d.%d" % vt if use_src else "table[operand]")
 
 
+def seq_ob(tname, opc, op, cat, tier):
+    """two different code objects decoded one after the other in the same process: equal co_varnames, different
+    cells/frees/names/constants - the second must resolve against its own tables"""
+    vt = tuple(opc.version_tuple[:2])
+    word = vt >= (3, 6)
+    use_src = has_interp(opc) and vt >= (3, 6)
+    noarg = _pick(opc, ["NOP", "POP_TOP"])
+    tabs_a = dict(varnames=("a", "b"), cells=("b", "x") + ("fr",), names=("n0", "n1", "n2"), consts=(10, "k", None))
+    tabs_b = dict(varnames=("a", "b"), cells=("q",) + ("w", "z"), names=("m0", "m1", "m2"), consts=(77, "j", 5.5))
+
+    def lp(t):
+        cv = t["cells"][:-1] if t is tabs_a else t["cells"][:1]
+        fv = t["cells"][-1:] if t is tabs_a else t["cells"][1:]
+        return tuple(t["varnames"]) + tuple(c for c in cv if c not in t["varnames"]) + tuple(fv)
+
+    def body(x, y):
+        import xdis.bytecode as B
+        res = []
+        for t, operand in ((tabs_a, x), (tabs_b, y)):
+            items = ([noarg, 0, op, operand] if word else [noarg, op, operand, 0])
+            for _ in range(cache_entries(opc, op) if word else 0):
+                items += [0, 0]
+            code = mkbytes(items)
+            off = 2 if word else 1
+            want = None
+            skip = False
+            if use_src:
+                try:
+                    src = oracles.src_instructions(vt, code, varnames=t["varnames"], names=t["names"], constants=t["consts"],
+                                                   cells=t["cells"], localsplus=lp(t))
+                    for sd in src:
+                        if sd["offset"] == off:
+                            want = sd["argval"]
+                    unk = getattr(oracles.load_dis(vt), "UNKNOWN", None)
+                    if unk is not None and want is unk:
+                        skip = True
+                except (IndexError, KeyError):
+                    skip = True
+            else:
+                table = {"hasconst": t["consts"], "hasname": t["names"], "haslocal": t["varnames"], "hasfree": t["cells"],
+                         "hascompare": opc.cmp_op}[cat]
+                if operand < len(table):
+                    want = table[operand]
+                else:
+                    skip = True
+            if skip:
+                # still decode, so that whatever the first call leaves behind is there for the second
+                try:
+                    with no_text(opc):
+                        list(B.get_instructions_bytes(code, opc, t["varnames"], t["names"], t["consts"], t["cells"]))
+                except (IndexError, KeyError):
+                    pass
+                continue
+            with no_text(opc):
+                insts = list(B.get_instructions_bytes(code, opc, t["varnames"], t["names"], t["consts"], t["cells"]))
+            got = [i for i in insts if i.offset == off][0]
+            assert _same(got.argval, want), "argval of the %s code object: xdis %r, CPython %r (operand %r)" % (
+                "first" if t is tabs_a else "second", got.argval, want, operand)
+
+    return Ob(id="C03.%s.op%d.seq" % (tshort(tname), op), prop="C03", params=[("x", (0, 7)), ("y", (0, 7))], body=body, funcs=FUNCS,
+              region="%s.%s.seq" % (tshort(tname), opc.opname[op]),
+              skeleton="table=%s opcode=%d(%s): code object A then code object B (same varnames, different other tables)" % (tname, op, opc.opname[op]),
+              bound="operands 0..7 each", timeout=60 if tier == "quick" else 200,
+              oracle="R-src per code object" if use_src else "table[operand] per code object")
+
+
 def _same(a, b):
     if isinstance(a, tuple) or isinstance(b, tuple):
         return isinstance(a, tuple) and isinstance(b, tuple) and len(a) == len(b) and all(_same(x, y) for x, y in zip(a, b))
@@ -214,6 +280,8 @@ def generate(tier, seed):
                 ks = (0,)
             if vt < (3, 6):
                 ks = (0,) if tier == "quick" else (0, 1)
+            if cat != "hascompare":
+                obs.append(seq_ob(tname, opc, op, cat, tier))
             for k in ks:
                 if k == 0:
                     if cat == "hascompare" and vt < (3, 9):
